@@ -23,6 +23,14 @@ type c16Dest struct {
 	A, B, C, D int
 }
 
+// c16Logger builds PostTransforms that differ in their captured variables only: every closure it
+// returns has the same code pointer (noinline: an inlined factory gets a copy of the literal per call site)
+//
+//go:noinline
+func c16Logger(log *string, tag string) z.PostTransform {
+	return func(p any, ctx z.Ctx) error { *log += tag; return nil }
+}
+
 func c16Test(code string) z.Test {
 	return z.TestFunc(code, func(val any, ctx z.Ctx) bool { return false })
 }
@@ -54,7 +62,7 @@ func c16Same(got, want *z.StructSchema, in map[string]any, d1, d2 *c16Dest) bool
 
 func C16_Jobs() []string {
 	var out []string
-	for _, op := range []string{"pick", "omit", "extend", "merge", "merge3", "transforms", "pick-map", "omit-map", "chain", "merge-sizes", "merge-nested", "pick-empty", "key-spelling", "derive-nothing"} {
+	for _, op := range []string{"pick", "omit", "extend", "merge", "merge3", "transforms", "pick-map", "omit-map", "chain", "merge-sizes", "merge-nested", "pick-empty", "key-spelling", "derive-nothing", "merge-same-literal"} {
 		for k := 0; k <= 3+3*v.Tier(); k++ { // number of struct tests on the base (spare capacity varies)
 			out = append(out, op+"/t"+string(rune('0'+k)))
 		}
@@ -221,6 +229,25 @@ func C16_Run(job string) {
 		check(y, hand([]string{"a2", "b", "c"}, "s"), "C16:merge-differs-from-handwritten")
 		w := small.Merge(z.Struct(z.Schema{"b": c16Field(tb)}), big) // variadic, growing
 		check(w, wantX, "C16:merge-differs-from-handwritten")
+	case "merge-same-literal":
+		// the PostTransforms of the operands are concatenated, in order - also when they are closures
+		// of one function literal, or the very same transform inherited by both operands
+		log := ""
+		fa, fb, fc := c16Logger(&log, "A"), c16Logger(&log, "B"), c16Logger(&log, "C")
+		a := z.Struct(z.Schema{"a": z.Int()}).PostTransform(fa)
+		b := z.Struct(z.Schema{"b": z.Int()}).PostTransform(fb)
+		c := z.Struct(z.Schema{"c": z.Int()}).PostTransform(fc).PostTransform(fa)
+		var dd c16Dest
+		e1 := a.Merge(b).Parse(in, &dd)
+		v.Assert(e1 == nil && log == "AB", "C16:merge-lost-or-reordered-transforms")
+		log = ""
+		e2 := a.Merge(b, c).Parse(in, &dd)
+		v.Assert(e2 == nil && log == "ABCA", "C16:merge-lost-or-reordered-transforms")
+		log = ""
+		dd = c16Dest{A: 1, B: 1, C: 1, D: 1}
+		e3 := b.Merge(a, c).Validate(&dd)
+		v.Assert(e3 == nil && log == "BACA", "C16:merge-lost-or-reordered-transforms")
+		v.Cover("checked")
 	case "merge3":
 		// variadic Merge: fields, tests and PostTransforms of every operand, in order
 		log := ""
